@@ -382,10 +382,10 @@ Proof.
 Qed.
 
 (* Connection._access_attr *)
-Lemma spec_access p tgt nm extra : spec (fun s => holds s tgt /\ holds s nm) (access S C UL BL p tgt nm extra) holds.
+Lemma spec_access p g tgt nm extra : spec (fun s => holds s tgt /\ holds s nm) (access S C UL BL p g tgt nm extra) holds.
 Proof.
   destruct tgt; cbn [access];
-    try (destruct (decide (c_guard C) (c_attr C) p (pyname_of nm) no_obj) as [[?|?]|e| |]; try apply spec_unm; apply spec_raise).
+    try (destruct (decide (c_guard C) (c_attr C) p (pyname_of nm) no_obj) as [[?|final]|e| |]; try destruct (guard_ok g final); try apply spec_unm; apply spec_raise).
   - (* LO *)
     intros s s' r I [P _] E. apply holds_LO in P.
     set (vw := s_view S (wst s) o) in *. set (pn := pyname_of nm) in *.
@@ -408,7 +408,8 @@ Proof.
       * split; cbn; [split; [apply I1|split; [apply X1, P|eauto]]|apply I1].
       * eapply ext_trans; [exact X1|]. unfold ext, auth. cbn. apply incl_appr, incl_refl.
       * intros a ->. unfold holds, auth. cbn. apply incl_appl, incl_refl.
-    + destruct (s_attr S (wst s1) o p final extra) as [w r0] eqn:Es. injection E as <- <-. split; [|split].
+    + destruct (guard_ok g final); [|injection E as <- <-; split; [exact I1|split; [exact X1|intros ? ?; discriminate]]].
+      destruct (s_attr S (wst s1) o p final extra) as [w r0] eqn:Es. injection E as <- <-. split; [|split].
       * split; cbn; [split; [apply I1|split; [apply X1, P|eauto]]|apply I1].
       * eapply ext_trans; [exact X1|]. unfold ext, auth. cbn. apply incl_appr, incl_refl.
       * intros a ->. unfold holds, auth. cbn. apply incl_appl, incl_refl.
@@ -521,8 +522,8 @@ Fixpoint pk (g : bool) (e : hexp) : bool :=
   | XOp op a b => (match op with OpPickle => g | _ => true end) && pk g a && pk g b
   | XGuardCfg key _ body => if String.eqb key "allow_pickle" then pk true body else true
   | XTupCons a b | XLet a b | XSlice a b | XDecref a b | XTryExc a b => pk g a && pk g b
-  | XAccess _ o n x => pk g o && pk g n && pk g x
-  | XType a | XLookup a | XCtxArgs _ a => pk g a
+  | XAccess _ _ o n x => pk g o && pk g n && pk g x
+  | XType a | XLookup a | XCtxArgs _ _ a => pk g a
   | XCall f p st k => pk g f && pk g p && pk g st && pk g k
   | XIfNone c t e | XIfHasConn _ c t e => pk g c && pk g t && pk g e
   | XForward c _ a => pk g c && pk g a
@@ -554,14 +555,14 @@ Definition PRE (env loc : list lval) : state -> Prop := fun s => holds_all s env
 Lemma stable_PRE env loc : stable (PRE env loc). Proof. unfold PRE. auto with stab. Qed.
 Hint Resolve stable_PRE : stab.
 
-Lemma spec_try_exc {A} (pre : state -> Prop) (m h : M A) (post : state -> A -> Prop) :
-  stable pre -> spec pre m post -> spec pre h post -> spec pre (try_exc m h) post.
+Lemma spec_try_exc {A} (pre : state -> Prop) all (m h : M A) (post : state -> A -> Prop) :
+  stable pre -> spec pre m post -> spec pre h post -> spec pre (try_exc all m h) post.
 Proof.
   intros St Hm Hh s s' r I P E. unfold try_exc in E. destruct (m s) as [s1 r1] eqn:E1.
   destruct (Hm _ _ _ I P E1) as (I1 & X1 & Q1).
   destruct r1 as [a|x|].
   - injection E as <- <-. split; [exact I1|split; [exact X1|exact Q1]].
-  - destruct (is_exception x).
+  - destruct (all || is_exception x).
     + set (s1' := with_ctxs s1 (ctx_of x ++ ctxs s1)) in E.
       assert (I1' : Inv s1') by exact I1.
       assert (X1' : ext s s1') by exact X1.
@@ -742,10 +743,10 @@ Proof.
   intros H s s' x E. unfold in_genexpr in E. destruct (m s) as [s1 r1] eqn:Em.
   destruct r1 as [?|[[]| | | | | |]|]; try discriminate; injection E as <- <-; try (exact (H _ _ _ Em)); apply incl_nil_l.
 Qed.
-Lemma r_try_exc {A} (m h : M A) : rspec m -> rspec h -> rspec (try_exc m h).
+Lemma r_try_exc {A} all (m h : M A) : rspec m -> rspec h -> rspec (try_exc all m h).
 Proof.
   intros Hm Hh s s' x E. unfold try_exc in E. destruct (m s) as [s1 r1] eqn:Em.
-  destruct r1 as [a|y|]; try discriminate. destruct (is_exception y); [exact (Hh _ _ _ E)|]. injection E as <- <-. exact (Hm _ _ _ Em).
+  destruct r1 as [a|y|]; try discriminate. destruct (all || is_exception y); [exact (Hh _ _ _ E)|]. injection E as <- <-. exact (Hm _ _ _ Em).
 Qed.
 
 Ltac rr1 :=
@@ -771,7 +772,7 @@ Ltac rr1 :=
   | |- rspec (load_exc _ _ _) => apply r_load_exc
   | |- rspec (raise_loaded _ _ _) => apply r_raise_loaded
   | |- rspec (mbind _ _) => apply r_bind; [|intros ?]
-  | |- rspec (try_exc _ _) => apply r_try_exc
+  | |- rspec (try_exc _ _ _) => apply r_try_exc
   | |- rspec (match ?x with _ => _ end) => destruct x
   | |- rspec (if ?x then _ else _) => destruct x
   end.
@@ -820,21 +821,22 @@ Lemma r_iter v : rspec (iter_lval S C UL BL v). Proof. destruct v; cbn [iter_lva
 Lemma r_kw v : rspec (kw_lval S C UL BL v). Proof. destruct v; cbn [kw_lval]; repeat rr2. Qed.
 Lemma r_truthy v : rspec (truthy S C UL BL v). Proof. destruct v; cbn [truthy]; repeat rr2. Qed.
 Lemma r_islice b : rspec (islice_count S C UL BL b). Proof. destruct b; cbn [islice_count]; repeat rr2. Qed.
-Lemma r_access p tgt nm extra : rspec (access S C UL BL p tgt nm extra).
+Lemma r_access p g tgt nm extra : rspec (access S C UL BL p g tgt nm extra).
 Proof.
   destruct tgt; cbn [access]; try (repeat rr2; fail).
   intros s s' x E.
   set (s1 := fold_left _ _ s) in E.
   destruct (decide (c_guard C) (c_attr C) p (pyname_of nm) (s_view S (wst s) o)) as [[n|final]|e| |]; try discriminate.
   - destruct (s_hook S (wst s1) o p n extra) as [w r]. injection E as <- ->. unfold auth. cbn. apply incl_appl, incl_refl.
-  - destruct (s_attr S (wst s1) o p final extra) as [w r]. injection E as <- ->. unfold auth. cbn. apply incl_appl, incl_refl.
+  - destruct (guard_ok g final); [|injection E as <- <-; apply incl_nil_l].
+    destruct (s_attr S (wst s1) o p final extra) as [w r]. injection E as <- ->. unfold auth. cbn. apply incl_appl, incl_refl.
   - injection E as <- <-. apply incl_nil_l.
 Qed.
 Ltac rr3 := first [ lazymatch goal with
   | |- rspec (iter_lval _ _ _ _ _) => apply r_iter
   | |- rspec (kw_lval _ _ _ _ _) => apply r_kw
   | |- rspec (truthy _ _ _ _ _) => apply r_truthy
-  | |- rspec (access _ _ _ _ _ _ _ _) => apply r_access
+  | |- rspec (access _ _ _ _ _ _ _ _ _) => apply r_access
   | |- rspec (islice_count _ _ _ _ _) => apply r_islice end | rr2].
 Lemma index2_carried v x : index2 v = RRaise x -> carried x = [].
 Proof.
@@ -939,7 +941,7 @@ Proof.
 Qed.
 
 Lemma inv_payload x (cs : list (oid * nop)) : forall s, Inv s -> incl (carried x) (auth s) ->
-  Inv (fold_left add_ev (map (fun c => ECtx (fst c) (snd c)) cs ++ payload_events x) s).
+  Inv (fold_left add_ev (map (fun c => ECtx (fst c) (snd c)) cs ++ payload_events S x) s).
 Proof.
   assert (K : forall l s, Inv s -> (forall e, In e l -> (exists o op, e = ECtx o op) \/ exists o op, e = EPayload o op /\ In o (auth s)) -> Inv (fold_left add_ev l s)).
   { induction l as [|e l IHl]; intros s I H; cbn; [exact I|].
@@ -952,7 +954,8 @@ Proof.
   - left. apply in_map_iff in He as (c & <- & _). eauto.
   - right. destruct x; cbn in He; try contradiction.
     + apply in_app_or in He as [He|He]; apply in_map_iff in He as (o & <- & Ho); eexists _, _; (split; [reflexivity|apply H; exact Ho]).
-    + destruct He as [<-|[<-|[]]]; eexists _, _; (split; [reflexivity|apply H; now left]).
+    + destruct He as [<-|He]; [eexists _, _; split; [reflexivity|apply H; now left]|]. destruct (s_callable S o); [contradiction|].
+      destruct He as [<-|[]]. eexists _, _; split; [reflexivity|apply H; now left].
 Qed.
 Lemma inv_dispatch_request seq raw s s' o : Inv s -> dispatch_request S C HT DT UL BL seq raw s = (s', o) -> Inv s'.
 Proof.
@@ -1271,7 +1274,7 @@ Lemma q_kw v : qspec (kw_lval S C UL BL v).
 Proof. destruct v; cbn [kw_lval]; repeat q2. Qed.
 Lemma q_truthy v : qspec (truthy S C UL BL v).
 Proof. destruct v; cbn [truthy]; repeat q2. Qed.
-Lemma q_access p tgt nm extra : qspec (access S C UL BL p tgt nm extra).
+Lemma q_access p g tgt nm extra : qspec (access S C UL BL p g tgt nm extra).
 Proof.
   destruct tgt; cbn [access]; try (repeat q2; fail).
   intros s s' r E.
@@ -1279,7 +1282,8 @@ Proof.
   set (s1 := fold_left _ _ s) in *.
   destruct (decide (c_guard C) (c_attr C) p (pyname_of nm) (s_view S (wst s) o)) as [[n|final]|e| |].
   - destruct (s_hook S (wst s1) o p n extra). injection E as <- <-. eapply qrel_trans; [exact Q1|now apply qrel_touch].
-  - destruct (s_attr S (wst s1) o p final extra). injection E as <- <-. eapply qrel_trans; [exact Q1|now apply qrel_touch].
+  - destruct (guard_ok g final); [|now injection E as <- <-].
+    destruct (s_attr S (wst s1) o p final extra). injection E as <- <-. eapply qrel_trans; [exact Q1|now apply qrel_touch].
   - now injection E as <- <-.
   - now injection E as <- <-.
   - now injection E as <- <-.
@@ -1290,7 +1294,7 @@ Ltac q3 := first [q2 | lazymatch goal with
   | |- qspec (iter_lval _ _ _ _ _) => apply q_iter
   | |- qspec (kw_lval _ _ _ _ _) => apply q_kw
   | |- qspec (truthy _ _ _ _ _) => apply q_truthy
-  | |- qspec (access _ _ _ _ _ _ _ _) => apply q_access
+  | |- qspec (access _ _ _ _ _ _ _ _ _) => apply q_access
   | |- qspec (islice_count _ _ _ _ _) => apply q_islice end].
 Lemma q_do_op op a b : qspec (do_op S C UL BL op a b).
 Proof. destruct op; cbn [do_op]; repeat q3. Qed.
@@ -1306,11 +1310,11 @@ Qed.
 Ltac q4 := first [q3 | lazymatch goal with
   | |- qspec (do_op _ _ _ _ _ _ _) => apply q_do_op
   | |- qspec (decref _ _ _) => apply q_decref end].
-Lemma q_try_exc {A} (m h : M A) : qspec m -> qspec h -> qspec (try_exc m h).
+Lemma q_try_exc {A} all (m h : M A) : qspec m -> qspec h -> qspec (try_exc all m h).
 Proof.
   intros Hm Hh s s' r E. unfold try_exc in E. destruct (m s) as [s1 r1] eqn:E1. pose proof (Hm _ _ _ E1) as Q1.
   destruct r1 as [a|x|]; [now injection E as <- <-| |now injection E as <- <-].
-  destruct (is_exception x); [|now injection E as <- <-]. eapply qrel_trans; [exact Q1|].
+  destruct (all || is_exception x); [|now injection E as <- <-]. eapply qrel_trans; [exact Q1|].
   eapply qrel_trans; [|exact (Hh _ _ _ E)]. now apply qrel_same.
 Qed.
 Lemma q_eval e : forall env loc, qspec (eval S C UL BL env loc e).
@@ -1357,7 +1361,7 @@ Proof.
     destruct r2; injection E as <- <-; eapply qrel_trans; eauto.
   - destruct (closed s1); [now injection E as <- <-|].
     destruct (propagates C x); injection E as <- <-; [eapply qrel_trans; [exact Q1|apply qrel_end_conn]|].
-    eapply qrel_trans; [exact Q1|]. exact (q_fold_any (fun e => e) (map (fun c => ECtx (fst c) (snd c)) (rev (ctxs s1)) ++ payload_events x) s1).
+    eapply qrel_trans; [exact Q1|]. exact (q_fold_any (fun e => e) (map (fun c => ECtx (fst c) (snd c)) (rev (ctxs s1)) ++ payload_events S x) s1).
   - now injection E as <- <-.
 Qed.
 
@@ -1633,10 +1637,10 @@ Lemma unbox_first_miss {W} (S : sem W) C f key rest (s : hst W) : tbl_find key (
 Proof.
   intros F. cbn [unbox]. unfold mbind, lift, in_genexpr, resolve. cbn. now rewrite F.
 Qed.
-Theorem forged_reference_refused {W} (S : sem W) (s : hst W) seq h key rest answers :
+Theorem forged_reference_refused {W} (S : sem W) HT DT (s : hst W) seq h key rest answers :
   lost s = false -> closed s = false -> tbl_find key (tbl s) = None ->
   let msg := PTuple [PInt 1; seq; PTuple [h; PTuple [PInt 2; PTuple (PTuple [PInt 3; key] :: rest)]]] in
-  exists s', handle_msg S default_config handlers dispatch msg_ladder unbox_ladder box_ladder msg answers s = (s', OExc seq (XStd KeyError))
+  exists s', handle_msg S default_config HT DT msg_ladder unbox_ladder box_ladder msg answers s = (s', OExc seq (XStd KeyError))
     /\ wst s' = wst s /\ tbl s' = tbl s /\ tr s' = EMiss key :: EMsg :: tr s /\ closed s' = false.
 Proof.
   intros Hl Hc F msg. subst msg. unfold handle_msg. rewrite Hl. unfold handle_msg_core. rewrite Hc.
@@ -1654,3 +1658,293 @@ Proof.
   intros op v args. cbn [s_val world_sem]. destruct op; cbn; try apply incl_nil_l.
   destruct v; cbn; try apply incl_nil_l. destruct l; cbn; apply incl_nil_l.
 Qed.
+
+(* ================================================================== a name guard on an access bounds the names that reach the object *)
+Section Guard.
+Context {W : Type}.
+Variable S : sem W.
+Variable C : config.
+Variable UL : list (Z * uact).
+Variable BL : list (string * Z).
+Variable names : list string.
+Notation state := (hst W).
+Notation M := (@Hostile.M W).
+
+(* every by-name access in e goes through an accessor guarded by a sub-list of [names] *)
+Fixpoint guarded (e : hexp) : bool :=
+  match e with
+  | XAccess _ g o n x =>
+      match g with Some l => forallb (fun a => existsb (String.eqb a) names) l | None => false end && guarded o && guarded n && guarded x
+  | XOp _ a b | XTupCons a b | XLet a b | XSlice a b | XDecref a b | XTryExc a b => guarded a && guarded b
+  | XGuardCfg _ _ a | XType a | XLookup a | XCtxArgs _ _ a => guarded a
+  | XCall f p st k => guarded f && guarded p && guarded st && guarded k
+  | XIfNone c t e | XIfHasConn _ c t e => guarded c && guarded t && guarded e
+  | XForward c _ a => guarded c && guarded a
+  | _ => true
+  end.
+Definition listed (e : event) : Prop :=
+  match e with EAttr _ _ final _ => exists n, In n names /\ final = txt n | _ => True end.
+(* the events added between two states are all [listed] *)
+Definition arel (s s' : state) : Prop := exists t, tr s' = t ++ tr s /\ Forall listed t.
+Definition aspec {A} (m : M A) : Prop := forall s s' r, m s = (s', r) -> arel s s'.
+
+Lemma arel_refl s : arel s s. Proof. exists []. split; [reflexivity|constructor]. Qed.
+Lemma arel_trans a b c : arel a b -> arel b c -> arel a c.
+Proof. intros (t1 & E1 & F1) (t2 & E2 & F2). exists (t2 ++ t1). split; [now rewrite E2, E1, app_assoc|now apply Forall_app]. Qed.
+Lemma arel_same (s s' : state) : tr s' = tr s -> arel s s'.
+Proof. intros H. exists []. split; [exact H|constructor]. Qed.
+Lemma arel_add (s : state) e : listed e -> arel s (add_ev s e).
+Proof. intros H. exists [e]. split; [reflexivity|constructor; [exact H|constructor]]. Qed.
+Lemma arel_fold {X} (f : X -> event) (Hf : forall x, listed (f x)) l : forall s : state, arel s (fold_left (fun s e => add_ev s (f e)) l s).
+Proof. induction l as [|x l IH]; intros s; cbn; [apply arel_refl|]. eapply arel_trans; [apply (arel_add s (f x)), Hf|apply IH]. Qed.
+
+Lemma a_ret {A} (a : A) : aspec (ret a). Proof. intros s s' r [= <- <-]. apply arel_refl. Qed.
+Lemma a_raise {A} x : aspec (@raise W A x). Proof. intros s s' r [= <- <-]. apply arel_refl. Qed.
+Lemma a_unm {A} : aspec (@unm W A). Proof. intros s s' r [= <- <-]. apply arel_refl. Qed.
+Lemma a_lift {A} (r : result A) : aspec (lift r).
+Proof. destruct r; cbn [lift]; [apply a_ret|apply a_raise|apply a_unm|apply a_unm]. Qed.
+Lemma a_bind {A B} (m : M A) (k : A -> M B) : aspec m -> (forall a, aspec (k a)) -> aspec (mbind m k).
+Proof.
+  intros Hm Hk s s' r E. unfold mbind in E. destruct (m s) as [s1 [a|x|]] eqn:Em.
+  - eapply arel_trans; [exact (Hm _ _ _ Em)|exact (Hk a _ _ _ E)].
+  - injection E as <- <-. exact (Hm _ _ _ Em).
+  - injection E as <- <-. exact (Hm _ _ _ Em).
+Qed.
+Lemma a_emit e : listed e -> aspec (emit e). Proof. intros H s s' r [= <- <-]. now apply arel_add. Qed.
+Lemma a_state {A} (m : M A) : (forall s s' r, m s = (s', r) -> tr s' = tr s) -> aspec m.
+Proof. intros H s s' r E. apply arel_same. exact (H _ _ _ E). Qed.
+Lemma a_mark : aspec (@mark_approx W). Proof. apply a_state. now intros s s' r [= <- <-]. Qed.
+Lemma a_pop : aspec (@pop_answer W). Proof. apply a_state. intros s s' r E. unfold pop_answer in E. destruct (script s); now injection E as <- <-. Qed.
+Lemma a_in_ccache k : aspec (@in_ccache W k). Proof. apply a_state. now intros s s' r [= <- <-]. Qed.
+Lemma a_was_seen k : aspec (@was_seen W k). Proof. apply a_state. now intros s s' r [= <- <-]. Qed.
+Lemma a_note_seen k : aspec (@note_seen W k). Proof. apply a_state. now intros s s' r [= <- <-]. Qed.
+Lemma a_note_class k : aspec (@note_class W k). Proof. apply a_state. now intros s s' r [= <- <-]. Qed.
+Lemma a_class_walk n : aspec (class_walk S C n).
+Proof.
+  intros s s' r E. unfold class_walk, emit_all in E. injection E as <- <-.
+  assert (K : forall (l : list text) (s0 : state), arel s0 (fold_left add_ev (map ECls l) s0)).
+  { induction l as [|m l IH]; intros s0; cbn; [apply arel_refl|]. eapply arel_trans; [apply (arel_add s0 (ECls m)); exact Logic.I|apply IH]. }
+  apply K.
+Qed.
+Lemma a_touch op o args : aspec (touch S op o args).
+Proof. intros s s' r E. unfold touch in E. destruct (s_op S (wst s) op o args). injection E as <- <-. apply (arel_add s (ETouch o op _)). exact Logic.I. Qed.
+Lemma a_val_op op v args : aspec (val_op S op v args).
+Proof. intros s s' r E. unfold val_op in E. injection E as <- <-. apply (arel_add s (EForeign _)). exact Logic.I. Qed.
+Lemma a_resolve k : aspec (@resolve W k).
+Proof. intros s s' r E. unfold resolve in E. destruct (tbl_find k (tbl s)) as [[o c]|]; injection E as <- <-; [apply (arel_add s (EResolve k o))|apply (arel_add s (EMiss k))]; exact Logic.I. Qed.
+Lemma a_lend o : aspec (lend S o).
+Proof. intros s s' r E. unfold lend in E. injection E as <- <-. apply (arel_add s (EBox (s_key S o) o)). exact Logic.I. Qed.
+Lemma a_cleanup : aspec (@cleanup W).
+Proof. intros s s' r [= <- <-]. eapply arel_trans; [apply (arel_add s EDisconnect)|apply (arel_add (add_ev s EDisconnect) EClear)]; exact Logic.I. Qed.
+Lemma a_load_exc payload : aspec (load_exc S C payload).
+Proof.
+  intros s s' r E. unfold load_exc in E. destruct (Vinegar.vload Vinegar.LkGetattr (c_rflags C) (s_env S) payload) as [eff rr].
+  pose proof (arel_fold EVin (fun _ => Logic.I) eff s) as Q.
+  assert (R : s' = fold_left (fun s e => add_ev s (EVin e)) eff s)
+    by (destruct rr as [[| |c a sets st]| | |]; try (destruct (negb (iterable a) || existsb set_fails sets)); try destruct st; now injection E).
+  now subst s'.
+Qed.
+Lemma a_raise_loaded {A} payload : aspec (@raise_loaded W S C A payload).
+Proof.
+  intros s s' r E. unfold raise_loaded in E. destruct (load_exc S C payload s) as [s1 r1] eqn:El.
+  pose proof (a_load_exc _ _ _ _ El) as Q. destruct r1; now injection E as <- <-.
+Qed.
+Lemma a_genexpr {A} (m : M A) : aspec m -> aspec (in_genexpr m).
+Proof. intros H s s' r E. unfold in_genexpr in E. destruct (m s) as [s1 r1] eqn:Em. specialize (H _ _ _ Em). destruct r1 as [?|[[]| | | | | |]|]; now injection E as <- <-. Qed.
+Lemma a_try_exc {A} all (m h : M A) : aspec m -> aspec h -> aspec (try_exc all m h).
+Proof.
+  intros Hm Hh s s' r E. unfold try_exc in E. destruct (m s) as [s1 r1] eqn:E1. pose proof (Hm _ _ _ E1) as Q1.
+  destruct r1 as [a|x|]; [now injection E as <- <-| |now injection E as <- <-].
+  destruct (all || is_exception x); [|now injection E as <- <-]. eapply arel_trans; [exact Q1|].
+  eapply arel_trans; [|exact (Hh _ _ _ E)]. now apply arel_same.
+Qed.
+
+Ltac a1 :=
+  lazymatch goal with
+  | |- aspec (ret _) => apply a_ret
+  | |- aspec (raise _) => apply a_raise
+  | |- aspec (raise_std _) => apply a_raise
+  | |- aspec unm => apply a_unm
+  | |- aspec (lift _) => apply a_lift
+  | |- aspec (emit _) => apply a_emit; exact Logic.I
+  | |- aspec mark_approx => apply a_mark
+  | |- aspec pop_answer => apply a_pop
+  | |- aspec (in_ccache _) => apply a_in_ccache
+  | |- aspec (was_seen _) => apply a_was_seen
+  | |- aspec (note_seen _) => apply a_note_seen
+  | |- aspec (note_class _) => apply a_note_class
+  | |- aspec (class_walk _ _ _) => apply a_class_walk
+  | |- aspec (touch _ _ _ _) => apply a_touch
+  | |- aspec (val_op _ _ _ _) => apply a_val_op
+  | |- aspec (resolve _) => apply a_resolve
+  | |- aspec (lend _ _) => apply a_lend
+  | |- aspec cleanup => apply a_cleanup
+  | |- aspec (load_exc _ _ _) => apply a_load_exc
+  | |- aspec (raise_loaded _ _ _) => apply a_raise_loaded
+  | |- aspec (mbind _ _) => apply a_bind; [|intros ?]
+  | |- aspec (match ?x with _ => _ end) => destruct x
+  | |- aspec (if ?x then _ else _) => destruct x
+  end.
+Lemma a_box f : forall v, aspec (box S BL f v).
+Proof.
+  induction f as [|f IH]; intros v; cbn [box]; [apply a_unm|].
+  destruct (as_value v); [apply a_ret|]. destruct v; try apply a_unm; try (repeat a1; fail).
+  apply a_bind; [|intros; apply a_ret]. induction l as [|x l IHl]; [apply a_ret|]. apply a_bind; [apply IH|intros]. apply a_bind; [exact IHl|intros; apply a_ret].
+Qed.
+Lemma a_unbox f : forall pkg, aspec (unbox S C UL f pkg).
+Proof.
+  induction f as [|f IH]; intros pkg; cbn [unbox]; [apply a_unm|].
+  apply a_bind; [apply a_lift|intros lv]. destruct lv as [|label [|value [|? ?]]]; try apply a_raise.
+  destruct (match num_of label with Some z => assoc_z z UL | None => None end) as [[| | |]|]; [apply a_ret| |apply a_resolve| |apply a_raise].
+  - apply a_bind; [apply a_lift|intros items].
+    assert (G : aspec (mbind ((fix go (l : list pyval) : M (list lval) :=
+                             match l with
+                             | [] => ret []
+                             | x :: r => mbind (in_genexpr (unbox S C UL f x)) (fun v => mbind (go r) (fun vs => ret (v :: vs)))
+                             end) items) (fun l => ret (LT l)))).
+    { apply a_bind; [|intros; apply a_ret]. induction items as [|x items IHi]; [apply a_ret|].
+      apply a_bind; [apply a_genexpr, IH|intros]. apply a_bind; [exact IHi|intros; apply a_ret]. }
+    destruct value; try exact G. destruct items as [|? [|? ?]]; try exact G. apply a_unm.
+  - destruct (index3 value) as [[[a b] c]|x|]; [|apply a_raise|apply a_unm].
+    destruct (py_str a); [|apply a_unm].
+    repeat first [a1 | lazymatch goal with |- aspec (unbox _ _ _ f _) => apply IH end].
+Qed.
+Lemma a_ask h args : aspec (ask S C UL BL h args).
+Proof. unfold ask. apply a_bind; [apply a_box|intros]. apply a_bind; [apply a_emit; exact Logic.I|intros]. apply a_bind; [apply a_pop|intros ans]. destruct ans; [apply a_unbox|apply a_raise_loaded|apply a_raise]. Qed.
+Lemma a_converse h args : aspec (converse S C UL BL h args).
+Proof. unfold converse. apply a_bind; [apply a_mark|intros; apply a_ask]. Qed.
+Ltac a2 := first [ lazymatch goal with
+  | |- aspec (converse _ _ _ _ _ _) => apply a_converse
+  | |- aspec (ask _ _ _ _ _ _) => apply a_ask
+  | |- aspec (unbox _ _ _ _ _) => apply a_unbox
+  | |- aspec (box _ _ _ _) => apply a_box end | a1].
+Lemma a_iter v : aspec (iter_lval S C UL BL v). Proof. destruct v; cbn [iter_lval]; repeat a2. Qed.
+Lemma a_kw v : aspec (kw_lval S C UL BL v). Proof. destruct v; cbn [kw_lval]; repeat a2. Qed.
+Lemma a_truthy v : aspec (truthy S C UL BL v). Proof. destruct v; cbn [truthy]; repeat a2. Qed.
+Lemma a_islice b : aspec (islice_count S C UL BL b). Proof. destruct b; cbn [islice_count]; repeat a2. Qed.
+(* the guarded accessor: only a listed name reaches the object *)
+Lemma a_access p l tgt nm extra : forallb (fun a => existsb (String.eqb a) names) l = true ->
+  aspec (access S C UL BL p (Some l) tgt nm extra).
+Proof.
+  intros Hl. destruct tgt; cbn [access]; try (repeat a2; fail).
+  intros s s' r E.
+  pose proof (arel_fold (fun e => EProbe o (ev_name e)) (fun _ => Logic.I) (probes_of (c_attr C) p (pyname_of nm) (s_view S (wst s) o)) s) as Q1.
+  set (s1 := fold_left _ _ s) in *.
+  destruct (decide (c_guard C) (c_attr C) p (pyname_of nm) (s_view S (wst s) o)) as [[n|final]|e| |]; try (now injection E as <- <-).
+  - destruct (s_hook S (wst s1) o p n extra). injection E as <- <-. eapply arel_trans; [exact Q1|]. apply (arel_add s1 (EHook o p n _)). exact Logic.I.
+  - destruct (guard_ok (Some l) final) eqn:G; [|now injection E as <- <-].
+    destruct (s_attr S (wst s1) o p final extra). injection E as <- <-. eapply arel_trans; [exact Q1|]. apply (arel_add s1 (EAttr o p final _)).
+    cbn in G. apply existsb_exists in G as (a & Ha & Et). apply text_eqb_eq in Et. rewrite forallb_forall in Hl.
+    specialize (Hl a Ha). apply existsb_exists in Hl as (b & Hb & Eb). apply String.eqb_eq in Eb. subst b. exists a. split; [exact Hb|exact Et].
+Qed.
+Ltac a3 := first [ lazymatch goal with
+  | |- aspec (iter_lval _ _ _ _ _) => apply a_iter
+  | |- aspec (kw_lval _ _ _ _ _) => apply a_kw
+  | |- aspec (truthy _ _ _ _ _) => apply a_truthy
+  | |- aspec (islice_count _ _ _ _ _) => apply a_islice end | a2].
+Lemma a_do_op op a b : aspec (do_op S C UL BL op a b).
+Proof. destruct op; cbn [do_op]; repeat a3. Qed.
+Lemma a_decref k c : aspec (decref S k c).
+Proof.
+  destruct k; cbn [decref]; try (repeat a3; fail).
+  intros s s' r E. destruct (tbl_find v (tbl s)) as [[o cnt]|].
+  - destruct c; try (injection E as <- <-; apply arel_refl).
+    + destruct v0; try (injection E as <- <-; first [apply arel_refl | exact (arel_add s (EDecref v _) Logic.I)]).
+    + revert E. apply (a_bind (touch S OpCmp o0 []) (fun _ => unm)); [apply a_touch|intros; apply a_unm].
+  - injection E as <- <-. apply (arel_add s (EMiss v)). exact Logic.I.
+Qed.
+Ltac a4 := first [ lazymatch goal with
+  | |- aspec (do_op _ _ _ _ _ _ _) => apply a_do_op
+  | |- aspec (decref _ _ _) => apply a_decref end | a3].
+Lemma a_eval e : guarded e = true -> forall env loc, aspec (eval S C UL BL env loc e).
+Proof.
+  induction e; intros Hg env loc; cbn [eval]; cbn [guarded] in Hg;
+    repeat match goal with H : _ && _ = true |- _ => apply andb_prop in H; let a := fresh "K" in let b := fresh "K" in destruct H as [a b] end;
+    try (unfold ctx_raise;
+         repeat first [ lazymatch goal with
+                        | |- aspec (eval _ _ _ _ _ _ ?x) => first [apply IHe | apply IHe1 | apply IHe2 | apply IHe3 | apply IHe4]; assumption
+                        | |- aspec (try_exc _ _ _) => apply a_try_exc
+                        end | a4 ]; fail).
+  (* XAccess *)
+  destruct g as [l|]; [|discriminate].
+  apply a_bind; [apply IHe1; assumption|intros ov]. apply a_bind; [apply IHe2; assumption|intros nv]. apply a_bind; [apply IHe3; assumption|intros xv].
+  now apply a_access.
+Qed.
+End Guard.
+
+Section GuardMsg.
+Context {W : Type}.
+Variable S : sem W.
+Variable C : config.
+Variable HT : list (string * hdef).
+Variable DT : list (Z * string).
+Variable ML : list (Z * dact).
+Variable UL : list (Z * uact).
+Variable BL : list (string * Z).
+Variable names : list string.
+Definition hdef_guarded (d : hdef) : Prop := guarded names (h_body d) = true /\ Forall (fun e => guarded names e = true) (h_defaults d).
+
+Lemma a_bind_ret {A B} (a : A) (k : A -> @Hostile.M W B) : aspec names (k a) -> aspec names (mbind (ret a) k).
+Proof. intros H s s' r E. exact (H s s' r E). Qed.
+Lemma a_eval_list l : Forall (fun e => guarded names e = true) l -> aspec names (eval_list S C UL BL l).
+Proof.
+  induction l as [|e l IH]; intros H; cbn [eval_list]; [apply a_ret|]. inversion H; subst.
+  apply a_bind; [now apply a_eval|intros]. apply a_bind; [now apply IH|intros; apply a_ret].
+Qed.
+Lemma a_call_handler hv args : (forall d, find_handler HT DT hv = Some d -> hdef_guarded d) ->
+  aspec names (call_handler S C HT DT UL BL hv args).
+Proof.
+  intros Hd. unfold call_handler.
+  assert (G : aspec names match find_handler HT DT hv with
+                | None => raise_std KeyError
+                | Some d =>
+                    mbind (iter_lval S C UL BL args) (fun l =>
+                      let n := List.length l in
+                      if (n <? h_min d)%nat || (h_min d + List.length (h_defaults d) <? n)%nat then raise_std TypeError
+                      else mbind (eval_list S C UL BL (skipn (n - h_min d) (h_defaults d))) (fun ds => eval S C UL BL (l ++ ds) [] (h_body d)))
+                end).
+  { destruct (find_handler HT DT hv) as [d|]; [|apply a_raise]. destruct (Hd d eq_refl) as [Hb Hl].
+    apply a_bind; [apply a_iter|intros l]. cbn zeta. destruct (_ || _); [apply a_raise|].
+    apply a_bind; [apply a_eval_list; now apply Forall_skipn|intros; now apply a_eval]. }
+  destruct hv; try exact G; apply a_unm.
+Qed.
+Lemma arel_end_conn (s : hst W) : arel names s (end_conn s).
+Proof. unfold end_conn. destruct (closed s); [apply arel_refl|]. destruct (cleanup s) as [s1 r1] eqn:E. exact (a_cleanup names _ _ _ E). Qed.
+Lemma payload_listed x cs : Forall (listed names) (rev (map (fun c : oid * nop => ECtx (fst c) (snd c)) cs ++ payload_events S x)).
+Proof.
+  apply Forall_rev, Forall_app. split; [apply Forall_forall; intros e He; apply in_map_iff in He as (c & <- & _); exact Logic.I|].
+  apply Forall_forall. intros e He. destruct x; cbn in He; try contradiction.
+  - apply in_app_or in He as [He|He]; apply in_map_iff in He as (o & <- & _); exact Logic.I.
+  - destruct He as [<-|He]; [exact Logic.I|]. destruct (s_callable S o); [contradiction|]. destruct He as [<-|[]]. exact Logic.I.
+Qed.
+Lemma arel_fold_events l : (forall e, In e l -> listed names e) -> forall s : hst W, arel names s (fold_left add_ev l s).
+Proof.
+  induction l as [|e l IH]; intros H s; cbn; [apply arel_refl|].
+  eapply arel_trans; [apply (arel_add names s e), H; now left|apply IH]. intros e' He'. apply H. now right.
+Qed.
+(* a request for a handler whose body is guarded adds by-name accesses of listed names only -- whatever the arguments are *)
+Theorem guarded_request_listed seq raw (s s' : hst W) o :
+  (forall h pkg d, Vinegar.unpack 2 raw = Ok [h; pkg] -> find_handler HT DT h = Some d -> hdef_guarded d) ->
+  dispatch_request S C HT DT UL BL seq raw s = (s', o) -> arel names s s'.
+Proof.
+  intros Hd E. unfold dispatch_request in E.
+  match type of E with context [?m s] => match m with mbind _ _ => set (mm := m) in * end end.
+  assert (Hm : aspec names mm).
+  { subst mm. destruct (Vinegar.unpack 2 raw) as [ha| | |] eqn:U; cbn [lift].
+    - apply a_bind_ret. destruct ha as [|h [|pkg [|? ?]]]; try apply a_raise.
+      apply a_bind; [apply a_unbox|intros]. apply a_call_handler. intros d Hf. exact (Hd h pkg d eq_refl Hf).
+    - intros s0 s1 r1 E1. injection E1 as <- <-. apply arel_refl.
+    - intros s0 s1 r1 E1. injection E1 as <- <-. apply arel_refl.
+    - intros s0 s1 r1 E1. injection E1 as <- <-. apply arel_refl. }
+  destruct (mm s) as [s1 r1] eqn:Em. pose proof (Hm _ _ _ Em) as Q1.
+  destruct r1 as [v|x|].
+  - destruct (closed s1); [now injection E as <- <-|].
+    destruct (box S BL FUEL v s1) as [s2 r2] eqn:Eb. pose proof (a_box S BL names _ _ _ _ _ Eb) as Q2.
+    destruct r2; injection E as <- <-; eapply arel_trans; eauto.
+  - destruct (closed s1); [now injection E as <- <-|].
+    destruct (propagates C x); injection E as <- <-; [eapply arel_trans; [exact Q1|apply arel_end_conn]|].
+    eapply arel_trans; [exact Q1|]. apply arel_fold_events. intros e He.
+    pose proof (payload_listed x (rev (ctxs s1))) as F. rewrite Forall_forall in F. apply F. now apply -> in_rev.
+  - now injection E as <- <-.
+Qed.
+End GuardMsg.
